@@ -386,6 +386,9 @@ func (g *gen) sqlFiles() (*file, *file) {
 		cols := map[string]bool{"id": true}
 		tags := map[string]string{}
 		nc := r.Range(1, 6)
+		if r.Chance(1, 12) {
+			nc = 0 // a table may consist of its id only
+		}
 		for j := 0; j < nc; j++ {
 			c, tag := s.column(t, cols, primaries)
 			t.Columns = append(t.Columns, c)
